@@ -381,7 +381,7 @@ TABLE['C15'] = dict(
     ])
 
 TABLE['C16'] = dict(
-    imports=[A + 'DriverPath', A + 'MutConfig', A + 'MutConfigNonneg'],
+    imports=[A + 'DriverPath', A + 'MutConfig', A + 'MutConfigNonneg', A + 'MutConfigBridge'],
     summary='Proved exactly over any field, unbounded n: the matrix the code inverts, sum of P_i = P_total, words of length m sum to '
             'P_total^m and regroup by configuration through distinct orderings, total mass of <= M mutations = 1 - alpha P_total^(M+1) 1, '
             'empty configuration = resolvent form of the Laplace transform, expected counts = theta times expected SFS, first-step '
@@ -415,6 +415,10 @@ TABLE['C16'] = dict(
         ('executable_prob_nonneg', 'PG.mutConfigProb_nonneg', 'the EXECUTABLE mutConfigProb returns a non-negative number under the sign hypotheses on its inputs'),
         ('executable_prob_le_one', 'PG.mutConfigProb_le_one', 'and at most 1'),
         ('minimum_principle', 'PG.zmatrix_minimum_principle', 'M x >= 0 implies x >= 0 for a Z-matrix with strictly positive row sums'),
+        ('code_prob_in_unit_interval', 'PG.C16_code_prob_in_unit_interval', 'UNCONDITIONAL on the code model: for every valid model and epoch, every n >= 2 and number of demes, the inputs the mutcfg path builds from the BFS graph satisfy all sign hypotheses, so whatever mutConfigProb returns lies in [0, 1] (no hypothesis on S, R, alpha left)'),
+        ('code_total_mass', 'PG.C16_code_total_mass_in_unit_interval', 'the values returned for all configurations with at most M mutations sum to a number in [0, 1]'),
+        ('generator_signs', 'PG.transient_block_row_sum_nonpos', 'the transient block of the code generator has non-positive row sums (and non-negative off-diagonals: generator_offdiag_nonneg)'),
+        ('transient_reward_pos', 'PG.transient_total_reward_pos', 'every non-absorbing block-counting state carries total branch-length reward >= 2'),
     ])
 
 TABLE['C17'] = dict(
